@@ -135,6 +135,7 @@ func runDigest(c *simkit.Choices, x *simkit.Ctx, v *simkit.Violation) uint64 {
 		d.Int(int(t))
 	}
 	d.Int(int(x.Clock))
+	d.Int(int(x.Obs))
 	if v != nil {
 		d.Str(v.Class())
 	}
